@@ -181,10 +181,16 @@ func c10Eval(r *core.Run, base *c10Base, c *c10Case) {
 			continue
 		}
 		if g.seg.Dump != nil {
-			complete := 0
+			// delivered: goroutines whose own lines all arrived; complete: those that are also final (for the last
+			// goroutine of the dump: once the line ending the dump is in - until then a fragment of the next line
+			// can still be taken for a continuation, or even for the header of one more goroutine).
+			complete, delivered := 0, 0
 			for j, e := range g.gComplete {
+				if c.Cut >= e {
+					delivered++
+				}
 				if j == len(g.gComplete)-1 {
-					e = over // the last goroutine is final only once the line ending the dump is in
+					e = over
 				}
 				if c.Cut >= e {
 					complete++
@@ -194,8 +200,8 @@ func c10Eval(r *core.Run, base *c10Base, c *c10Case) {
 				report("goroutine-missing", fmt.Sprintf("dump %d: %d goroutines lie entirely before the cut, %d parsed", si, complete, len(s.Goroutines)))
 				return
 			}
-			if len(s.Goroutines) > complete+1 {
-				report("goroutine-extra", fmt.Sprintf("dump %d: %d goroutines parsed, only %d complete + 1 partial possible", si, len(s.Goroutines), complete))
+			if len(s.Goroutines) > delivered+1 {
+				report("goroutine-extra", fmt.Sprintf("dump %d: %d goroutines parsed, only %d delivered + 1 partial possible", si, len(s.Goroutines), delivered))
 				return
 			}
 			for j := 0; j < len(s.Goroutines) && j < len(full.Goroutines); j++ {
